@@ -132,7 +132,9 @@ pub fn run(ctx: &mut Ctx) {
         ctx.forall(&format!("comp/{}", id.name()), cases, strat(id, max), dispatch_comp);
     }
     for id in ALL_CODECS {
-        let lens = gen::long_lens(ctx.thorough(), ctx.seed);
+        let mut lens = gen::long_lens(ctx.thorough(), ctx.seed);
+        // one sequence just above 32 KiB of packed data, with a partial last word
+        lens.push((1usize << 18) / id.bits() + 1);
         ctx.forall_lens(&format!("rev_long/{}", id.name()), &lens, |n| gen::seq_spec_n(id, n).prop_map(move |s| Case { codec: id, s }), dispatch_rev);
         if COMP_CODECS.contains(&id) {
             ctx.forall_lens(&format!("comp_long/{}", id.name()), &lens, |n| gen::seq_spec_n(id, n).prop_map(move |s| Case { codec: id, s }), dispatch_comp);
